@@ -45,6 +45,8 @@ PROPERTY_BOUNDED = {
     'C14': ['hermes_scope'], 'C13': ['root_setters', 'builder_model'], 'C07': ['rmi_roundtrip'], 'C12': ['header'], 'C04': ['ordering'],
     'C10': ['adjust', 'adjust_dups'], 'C05': ['decode_extreme'], 'C02': ['decode_document'], 'C15': ['sourceview'], 'C17': ['function_name'], 'C18': ['discover'], 'C19': ['relpath'], 'C20': ['ram_bundle'],
 }
+# harnesses that count their non-trivial expectations (a token found, a name resolved, ...): 0 of them means the run proves nothing
+NEEDS_WITNESS = {'function_name', 'relpath', 'discover', 'sourceview', 'ram_bundle', 'index_flatten', 'index_nested', 'hermes_scope'}
 _results = {}
 _built = {}
 
@@ -61,6 +63,9 @@ def run_harness(name):
         if p.returncode in (0, 1) and out.startswith('{'):
             d = json.loads(out)
             d['status'] = 'counterexample' if d.get('counterexample') else 'passed'
+            if d['status'] == 'passed' and name in NEEDS_WITNESS and not d.get('witnesses'):
+                d['status'] = 'unavailable'
+                d['note'] = 'vacuous run: no case with a non-trivial expected answer'
             d['known'] = [json.loads(l) for l in lines[:-1] if '"known_finding"' in l]
         else:
             d = dict(harness=name, status='unavailable', note=(p.stdout + p.stderr)[-600:])
